@@ -236,7 +236,7 @@ class Injector:
                     return None
                 if event == 'call':
                     return tracer
-                if event == 'line' and co.co_qualname == qual and frame.f_lineno == line:
+                if event == 'line' and frame.f_lineno == line and (co.co_qualname == qual or co.co_qualname.startswith(qual + '.<locals>.')):      # nested functions / lambdas: the model names the enclosing function
                     inj.count += 1
                     if inj.count == f['occurrence']:
                         sys.settrace(None)
